@@ -91,6 +91,8 @@ def run(ctx):
                     'derived cross-variant order, so every row (or none) passes')
     mask_rule(ctx, prog)
     bound_compare_rule(ctx, prog)
+    from rules.c14_types import datavalue_order_users
+    datavalue_order_users(ctx, prog, 'C13-R11')
     folded_filter_rule(ctx, prog)
     bound_arithmetic_rule(ctx, prog)
     conservative_seek_rule(ctx, prog)
